@@ -49,10 +49,10 @@ import (
 	"go/token"
 	"go/types"
 	"log"
-	"runtime/debug"
 	"os"
 	"reflect"
 	"runtime"
+	"runtime/debug"
 	"slices"
 	"sync/atomic"
 	_ "unsafe"
